@@ -2,7 +2,7 @@
 //! whole clients and fault flags, then argument shrinking — always keeping the same
 //! violation class (same observer, same handle kind).
 
-use crate::exec::{run_history, ExecOpts, Violation};
+use crate::exec::{ExecOpts, Violation};
 use crate::module::Module;
 use crate::ops::{Event, Kind};
 
@@ -26,7 +26,9 @@ pub fn shrink(
             return None;
         }
         *attempts += 1;
-        run_history(m, h, &o)
+        // every candidate on a fresh thread: what survives must fail from pristine thread-local
+        // state, as it will when the replay file is executed by a new process
+        crate::driver::hermetic(m, h, &o)
             .violation
             .filter(|v| v.signature() == sig)
     };
